@@ -540,6 +540,21 @@ func (e *Env) object(o types.Object) CV {
 
 func (e *Env) typeByName(name string) (types.Type, string) {
 	g := e.g
+	// "*T" and "[]T" name the pointer / slice type over a nameable T
+	if strings.HasPrefix(name, "*") {
+		if t, _ := e.typeByName(name[1:]); t != nil {
+			pt := types.NewPointer(t)
+			return pt, g.sortOf(pt)
+		}
+		panic(cerr("unknown type %q", name))
+	}
+	if strings.HasPrefix(name, "[]") {
+		if t, _ := e.typeByName(name[2:]); t != nil {
+			st := types.NewSlice(t)
+			return st, g.sortOf(st)
+		}
+		panic(cerr("unknown type %q", name))
+	}
 	switch name {
 	case "ref", "dyn":
 		return nil, "Int"
@@ -789,6 +804,32 @@ func (e *Env) call(n *CCall) CV {
 			}
 		}
 		return CV{T: sx(">", v.T, e.old.top), Ty: boolT}
+	case "visited":
+		// visited(k): the key k has been handed out by the (first) range-over-map of the function
+		need(1)
+		if e.fr == nil {
+			panic(cerr("visited() outside a function"))
+		}
+		var rng *ssa.Range
+		for _, b := range e.fr.fn.Blocks {
+			for _, in := range b.Instrs {
+				if r, ok := in.(*ssa.Range); ok && rng == nil {
+					if _, isMap := r.X.Type().Underlying().(*types.Map); isMap {
+						rng = r
+					}
+				}
+			}
+		}
+		if rng == nil {
+			panic(cerr("visited(): the function ranges over no map"))
+		}
+		cell, ok := e.st.cells[rng]
+		if !ok {
+			panic(cerr("visited(): the range has not started here"))
+		}
+		mt := rng.X.Type().Underlying().(*types.Map)
+		k := e.at(e.eval(n.Args[0]), mt.Key())
+		return CV{T: sx("select", cell.T, k.T), Ty: boolT}
 	case "errtext":
 		// errtext(e): what e.Error() returns
 		need(1)
